@@ -21,7 +21,7 @@ FOLLOW = [
     "sl_1_4", "sl_2_", "sl__1", "sl_m2", "sl_s2", "sl_rev", "ix_1", "ix_m1", "ix_none", "tk_00", "tk_m1_0", "add1", "mul2", "neg", "gt12", "where_gt", "add_row",
     "T", "exp0", "flip", "cat_self", "stack0", "bcast", "rc2", "rc_all", "rc1",
     "sum", "sum0", "mean", "cumsum0", "cumsumm1_bl", "swv2_sum", "diff", "mb_double", "topk2", "nansum0", "sum_se2",
-    "plus_np_len1", "plus_np_len2", "plus_np_len3", "plus_np_len4", "plus_da_len2", "plus_da_len3", "plus_da_len4",
+    "cat_known", "cat_known_first", "plus_np_len1", "plus_np_len2", "plus_np_len3", "plus_np_len4", "plus_da_len2", "plus_da_len3", "plus_da_len4",
     "ravel", "rs_m1", "roll1", "maxm1", "min", "var_dd1", "std0", "argmax0", "argmin", "squeeze",
 ]
 
